@@ -6,6 +6,14 @@ var stdAssume = []string{
 }
 
 var props = map[string]*propCfg{
+	"C05": {
+		Engine: "execsim", Level: "exploration",
+		QuickRuns: 20000, ThoroughRuns: 2000000, QuickSeconds: 45, ThoroughSeconds: 1500, TimeoutS: 30,
+		Rule: "one run = one generated nest of if/else-if/else and range (0/1/2-variable forms, := and =) over typed/interface slices, pointer-to-slice, arrays, ints(a,b), single- and multi-entry maps, channels fed by producer goroutines on virtual time, index-providing and index-less custom Rangers, empty and non-empty, re-ranged and nested; executed 1-3 times under the adversarial simulated ranger pool and again under the fresh pool, optionally with a function fault at a tape-chosen dynamic call inside a try around range bodies. The rendering is compared with the documented structure evaluated by a small reference (map iterations as multisets). Non-trivial = the program contains at least one if or range; distinct = hash of (program, subjects, fault plans).",
+		Assumptions: append([]string{"the reference evaluator implements only the documented if/range rules (conditions from a fixed truthiness table of scalars, nil, pointers, maps, slices, non-zero structs)", "map iteration order is free: multi-entry map ranges have leaf bodies and are compared as multisets", "ints() is not ranged with '=' (its values alias the ranger's counters; C07's concern)"}, stdAssume...),
+		Real:        []string{"lexer", "parser (else-if desugaring)", "interpreter (NodeIf, NodeRange, getRanger, rangers)", "ints() built-in", "fastprinter"},
+		Stub:        []string{"simulated ranger/Runtime pools (verif hooks)", "virtual clock (testing/synctest) for channel producers", "SimWriter", "probe function fail", "custom Ranger implementations"},
+	},
 	"C12": {
 		Engine: "execsim", Level: "fault_enumeration",
 		QuickRuns: 600, ThoroughRuns: 60000, QuickSeconds: 45, ThoroughSeconds: 1500, TimeoutS: 30,
